@@ -25,7 +25,7 @@ type writerKind struct {
 
 func writeVia(mk func(n int) (w io.Writer, done func() ([]byte, error))) func(x *lc) ([]byte, int64, bool, outcome) {
 	return func(x *lc) (got []byte, n int64, hasN bool, o outcome) {
-		w, done := mk(len(x.o.bin))
+		w, done := mk(len(x.o.wbin))
 		o = guard(func() (err error) {
 			if n, err = x.o.a.wt.WriteTo(w); err != nil {
 				return
@@ -136,8 +136,11 @@ func famEntryPoints(x *lc) {
 		x.c.Skip("entry point not offered by the type")
 		return
 	}
+	// Reference: what WriteTo hands to a caller-flushed bufio.Writer (x.o.wbin). MarshalBinary is compared with it
+	// once (leaf 0); every other writer must deliver the same bytes and report their number.
+	ref := x.o.wbin
 	got, n, hasN, o := wk.run(x)
-	subj := tn + ".WriteTo"
+	subj := declName(x.o.obj, "WriteTo")
 	if k == 0 {
 		subj = tn + ".MarshalBinary"
 	}
@@ -146,9 +149,11 @@ func famEntryPoints(x *lc) {
 		x.failPanic("entrypoints", o, wk.name)
 	case o.err != nil:
 		x.c.Fail(sig("entrypoints", subj, "error:"+writerClass(wk.name)), "%s [%s]: %s failed on a healthy writer: %v", tn, x.label(), wk.name, o.err)
-	case !bytes.Equal(got, x.o.bin):
-		x.c.Fail(sig("entrypoints", subj, "bytes-differ:"+writerClass(wk.name)), "%s [%s]: bytes through %s differ from MarshalBinary: %s", tn, x.label(), wk.name, firstDiffAt(x.o.bin, got))
-	case hasN && n != int64(len(x.o.bin)):
+	case !bytes.Equal(got, ref) && k == 0:
+		x.c.Fail(sig("entrypoints", subj, "differs-from-WriteTo"), "%s [%s]: MarshalBinary and WriteTo produce different bytes: %s", tn, x.label(), firstDiffAt(ref, got))
+	case !bytes.Equal(got, ref):
+		x.c.Fail(sig("entrypoints", subj, "bytes-differ:"+writerClass(wk.name)), "%s [%s]: bytes through %s differ from those through a caller-flushed bufio.Writer: %s", tn, x.label(), wk.name, firstDiffAt(ref, got))
+	case hasN && n != int64(len(ref)):
 		x.c.Fail(sig("entrypoints", subj, "wrong-count"), "%s [%s]: %s returned n=%d, wrote %d bytes", tn, x.label(), wk.name, n, len(got))
 	}
 	x.c.Outcome(x.name, wk.name, len(got), o.err == nil)
@@ -209,61 +214,65 @@ func famReceiver(x *lc) {
 		x.c.Skip("no decoder")
 		return
 	}
-	d := ds[x.c.Choose(len(ds), "decoder")]
 	h := x.c.Choose(len(historyKinds), "receiver-history")
-	x.c.Cover("decoder", d.name)
 	x.c.Cover("history", historyKinds[h])
-	ref, ok := x.o.ref(d)
-	if !ok {
-		x.c.Skip("no reference encoding (reported by entrypoints)")
-		return
-	}
-	if h == 0 {
-		x.c.Outcome(x.name, d.name, "fresh", x.roundtrip(d, true))
-		return
-	}
-	if !x.baseline(d) {
-		return // a dirty receiver cannot be judged separately from a broken plain round trip
-	}
-	// every catalogue value of the type (the same one included) as the receiver's previous content
-	bad := 0
-	for j := range x.e.vals {
-		var recv any
-		how := "constructed as"
-		if h == 1 {
-			recv = build(x.seed, x.e, j)
-		} else {
-			how = "having decoded"
-			refj, okj := original(x.seed, x.e, j).ref(d)
-			if !okj {
-				continue
-			}
-			recv = freshLike(x.o.obj)
-			if _, o := x.decodeInto(d, recv, refj); o.err != nil || o.panicked != nil {
-				continue // value j does not decode: reported by its own scenario
-			}
+	evals, bad := 0, 0
+	for _, d := range ds {
+		x.c.Cover("decoder", d.name)
+		ref, ok := x.o.ref(d)
+		if !ok {
+			continue // no reference encoding (reported by entrypoints)
 		}
-		if j == x.vi {
-			x.c.Cover("history", "same-value")
-		}
-		n, o := x.decodeInto(d, recv, ref)
-		prev := fmt.Sprintf("receiver previously %s [%s]", how, x.e.vals[j].label)
-		switch {
-		case o.panicked != nil:
-			bad++
-			x.failPanic("receiver", o, d.name+" into a used receiver ("+prev+")")
-		case o.err != nil:
-			bad++
-			x.c.Fail(sig("receiver", x.e.name+"."+d.method, "error"), "%s [%s] via %s, %s: %v", x.e.name, x.label(), d.name, prev, o.err)
-		default:
-			if v := x.judge(d, recv, n); v.kind != "" {
+		if h == 0 {
+			evals++
+			if !x.roundtrip(d, true) {
 				bad++
-				x.c.Fail(sig("receiver", x.subjectFor(d, v), v.kind), "%s [%s] via %s, %s: %s", x.e.name, x.label(), d.name, prev, v.msg)
+			}
+			continue
+		}
+		if !x.roundtrip(d, false) {
+			continue // a dirty receiver cannot be judged separately from a broken plain round trip (reported by the fresh leaf)
+		}
+		// every catalogue value of the type (the same one included) as the receiver's previous content
+		for j := range x.e.vals {
+			var recv any
+			how := "constructed as"
+			if h == 1 {
+				recv = build(x.seed, x.e, j)
+			} else {
+				how = "having decoded"
+				refj, okj := original(x.seed, x.e, j).ref(d)
+				if !okj {
+					continue
+				}
+				recv = freshLike(x.o.obj)
+				if _, o := x.decodeInto(d, recv, refj); o.err != nil || o.panicked != nil {
+					continue // value j does not decode: reported by its own scenario
+				}
+			}
+			if j == x.vi {
+				x.c.Cover("history", "same-value")
+			}
+			evals++
+			n, o := x.decodeInto(d, recv, ref)
+			prev := fmt.Sprintf("receiver previously %s [%s]", how, x.e.vals[j].label)
+			switch {
+			case o.panicked != nil:
+				bad++
+				x.failPanic("receiver", o, d.name+" into a used receiver ("+prev+")")
+			case o.err != nil:
+				bad++
+				x.c.Fail(sig("receiver", x.e.name+"."+d.method, "error"), "%s [%s] via %s, %s: %v", x.e.name, x.label(), d.name, prev, o.err)
+			default:
+				if v := x.judge(d, recv, n); v.kind != "" {
+					bad++
+					x.c.Fail(sig("receiver", x.subjectFor(d, v), v.kind), "%s [%s] via %s, %s: %s", x.e.name, x.label(), d.name, prev, v.msg)
+				}
 			}
 		}
 	}
-	x.c.Count(len(x.e.vals))
-	x.c.Outcome(x.name, d.name, h, bad)
+	x.c.Count(evals)
+	x.c.Outcome(x.name, h, evals, bad)
 }
 
 // ---------------------------------------------------------------------------------------------
@@ -317,13 +326,28 @@ func representative(e *entry) int {
 	return 0
 }
 
-func streamable(o *cached) bool {
-	return o.a.rf != nil && o.a.wt != nil && o.binOK && o.wbinOK && bytes.Equal(o.bin, o.wbin)
+// streamable: consistent WriteTo/ReadFrom pair whose plain round trip works (anything else is reported by the
+// entry-point and receiver families of that object).
+var streamableCache = map[*cached]bool{}
+
+func streamable(e *entry, o *cached) bool {
+	if v, ok := streamableCache[o]; ok {
+		return v
+	}
+	v := o.a.rf != nil && o.a.wt != nil && o.binOK && o.wbinOK && bytes.Equal(o.bin, o.wbin)
+	if v {
+		recv := freshLike(o.obj)
+		var n int64
+		out := guard(func() (err error) { n, err = recv.(io.ReaderFrom).ReadFrom(buffer.NewBuffer(o.wbin)); return })
+		v = out.err == nil && out.panicked == nil && judgeAgainst(e, o.obj, o.wbin, decoders[1], recv, n).kind == ""
+	}
+	streamableCache[o] = v
+	return v
 }
 
 func famStream(x *lc) {
-	if !streamable(x.o) {
-		x.c.Skip("type has no consistent WriteTo/ReadFrom pair (inconsistencies are reported by entrypoints)")
+	if !streamable(x.e, x.o) {
+		x.c.Skip("object has no consistent, round-tripping WriteTo/ReadFrom pair (reported by entrypoints / receiver)")
 		return
 	}
 	partners := streamPartners(x.cat, x.c.Tier, x.e)
@@ -331,8 +355,8 @@ func famStream(x *lc) {
 	sr := streamReaders[x.c.Choose(len(streamReaders), "shared-reader")]
 	be := x.cat[partners[pi][0]]
 	bo := original(x.seed, be, partners[pi][1])
-	if !streamable(bo) {
-		x.c.Skip("second object has no consistent WriteTo/ReadFrom pair")
+	if !streamable(be, bo) {
+		x.c.Skip("second object has no consistent, round-tripping WriteTo/ReadFrom pair")
 		return
 	}
 	x.c.Cover("stream-reader", sr.name)
@@ -369,7 +393,7 @@ func famStream(x *lc) {
 			return
 		}
 		if out.err != nil {
-			x.c.Fail(sig("stream", subj, "error"), "%s: %v", where, out.err)
+			x.c.Fail(sig("stream", streamCulprit(o.obj, o.wbin, want, pos, sr, subj), "error"), "%s: %v", where, out.err)
 			return
 		}
 		if n != int64(len(o.bin)) {
@@ -403,6 +427,40 @@ func famStream(x *lc) {
 	}
 	x.c.Count(4)
 	x.c.Outcome(x.name, be.name, partners[pi][1], sr.name, len(want))
+}
+
+// streamCulprit: the deepest component of obj (encoded at stream[pos:]) whose own ReadFrom fails at its position
+// in the stream, through a reader in the state it has there (same reader kind, everything before discarded).
+func streamCulprit(obj any, objBytes, stream []byte, pos int, sr streamReader, name string) string {
+	for depth := 0; depth < 24; depth++ {
+		found := false
+		for _, c := range components(obj) {
+			var buf bytes.Buffer
+			if o := guard(func() (err error) { _, err = c.ptr.(io.WriterTo).WriteTo(&buf); return }); o.err != nil || o.panicked != nil || buf.Len() == 0 {
+				continue
+			}
+			off := bytes.Index(objBytes, buf.Bytes())
+			if off < 0 {
+				continue
+			}
+			r, _ := sr.mk(stream)
+			if n, err := r.(buffer.Reader).Discard(pos + off); err != nil || n != pos+off {
+				continue
+			}
+			recv := freshLike(c.ptr)
+			var n int64
+			o := guard(func() (err error) { n, err = recv.(io.ReaderFrom).ReadFrom(r); return })
+			if o.err == nil && o.panicked == nil && n == int64(buf.Len()) {
+				continue
+			}
+			obj, objBytes, pos, name, found = c.ptr, buf.Bytes(), pos+off, declName(c.ptr, "ReadFrom"), true
+			break
+		}
+		if !found {
+			break
+		}
+	}
+	return name
 }
 
 var _ = reflect.TypeOf
